@@ -226,7 +226,7 @@ Definition compat (c1 c2 : tcfg) (b1 b2 : option btls) : bool :=
   | _, _ => false
   end.
 
-(* "0.0.0.0" and "::" are stored under the catch-all key *)
+(* "0.0.0.0" and "::" are stored (and checked for compatibility) under the catch-all key *)
 Definition key_of (h : bytes) : bytes :=
   if beq h (bs "0.0.0.0"%string) || beq h (bs "::"%string) then [] else h.
 
@@ -246,7 +246,7 @@ Fixpoint mk_loop (dc : list N) (bad : list bytes) (i : nat) (prev : option bool)
     else match build dc bad c with
          | None => inl 2
          | Some ob =>
-           if match mget (host c) m with
+           if match mget (key_of (host c)) m with
               | Some (_, c2, ob2) => negb (compat c c2 ob ob2)
               | None => false
               end then inl 3
@@ -396,6 +396,9 @@ Definition match_host (e : amap nat) (h : bytes) : option (bytes * nat) :=
   find_key e (h :: wild_cands h).
 
 Definition fallback_hosts : list bytes := [bs "0.0.0.0"%string; bs "::"%string; []].
+(* the wildcard candidates matchHost derives from the fallback hosts: "*.0.0.0", "*.*.0.0",
+   "*.*.*.0", "*.*.*.*" and "*" — a site with such a name answers for every unmatched host *)
+Definition fallback_star_names : list bytes := flat_map wild_cands fallback_hosts.
 
 Fixpoint first_match (e : amap nat) (hs : list bytes) : option (bytes * nat) :=
   match hs with
